@@ -665,6 +665,13 @@ func init() {
 	builtins["github.com/pkg/errors.Wrapf"] = wrap
 	builtins["(*cosmossdk.io/errors.Error).Wrap"] = newErr
 	builtins["(*cosmossdk.io/errors.Error).Wrapf"] = newErr
+	builtins["(error).Error"] = func(x *Exec, s *State, r *Value, a []*Value, c *ast.CallExpr) []*Value {
+		return []*Value{prim(Fresh("str.errmsg", SInt), tStr)}
+	}
+	builtins["iface:error.Error"] = builtins["(error).Error"]
+	builtins["runtime/debug.Stack"] = func(x *Exec, s *State, r *Value, a []*Value, c *ast.CallExpr) []*Value {
+		return []*Value{{K: KBytes, Typ: types.NewSlice(types.Typ[types.Uint8]), B: &Bytes{Kind: "opaque", T: Fresh("stack", SInt)}}}
+	}
 	builtins["errors.Is"] = func(x *Exec, s *State, r *Value, a []*Value, c *ast.CallExpr) []*Value {
 		if a[0].K == KPrim && a[1].K == KPrim {
 			return []*Value{prim(Or(Eq(a[0].T, a[1].T), And(Neq(a[0].T, Zero), Fresh("errors.is", SBool))), tBool)}
